@@ -104,11 +104,27 @@ func (l *LSTM) Apply(inputs []tensor.Tensor) ([]tensor.Tensor, error) {
 	Ht := inputs[5]
 	if Ht == nil {
 		Ht = ops.ZeroTensor(1, batchSize, l.hiddenSize)
+	} else {
+		// Ht is reshaped below: work on a copy so that the caller's tensor keeps its shape.
+		clone, ok := Ht.Clone().(tensor.Tensor)
+		if !ok {
+			return nil, ops.ErrTypeAssert("tensor.Tensor", Ht.Clone())
+		}
+
+		Ht = clone
 	}
 
 	Ct := inputs[6]
 	if Ct == nil {
 		Ct = ops.ZeroTensor(1, batchSize, l.hiddenSize)
+	} else {
+		// Ct is reshaped below: work on a copy so that the caller's tensor keeps its shape.
+		clone, ok := Ct.Clone().(tensor.Tensor)
+		if !ok {
+			return nil, ops.ErrTypeAssert("tensor.Tensor", Ct.Clone())
+		}
+
+		Ct = clone
 	}
 
 	var Pi, Po, Pf tensor.Tensor
